@@ -28,6 +28,7 @@ type vServer struct {
 	Commands  []string // command lines received outside DATA
 	Committed []string // message contents accepted at end-of-data
 	Opened    int
+	Illegal   []string // commands that are illegal in the RFC 5321 transaction state they arrived in
 	conns     []*atomic.Bool
 	// Respond decides the reply for the n-th (0-based) occurrence of a command verb.
 	// Return "" to stall forever, "!drop" to close the connection.
@@ -85,6 +86,7 @@ func (s *vServer) serve(c net.Conn) {
 	}
 	rd := bufio.NewReader(c)
 	counts := map[string]int{}
+	txn, accepted := 0, 0 // reference automaton: 0 idle, 1 MAIL accepted, 2 RCPT seen
 	for {
 		line, err := rd.ReadString('\n')
 		if err != nil {
@@ -95,8 +97,28 @@ func (s *vServer) serve(c net.Conn) {
 		s.mu.Lock()
 		s.Commands = append(s.Commands, line)
 		s.mu.Unlock()
+		switch {
+		case verb == "MAIL" && txn != 0, verb == "RCPT" && txn == 0, verb == "DATA" && (txn != 2 || accepted == 0):
+			s.mu.Lock()
+			s.Illegal = append(s.Illegal, line)
+			s.mu.Unlock()
+		}
 		reply := s.Respond(verb, line, counts[verb])
 		counts[verb]++
+		ok := strings.HasPrefix(reply, "2") || strings.HasPrefix(reply, "3")
+		switch {
+		case verb == "MAIL" && ok:
+			txn, accepted = 1, 0
+		case verb == "RCPT" && ok:
+			txn = 2
+			accepted++
+		case verb == "RCPT":
+			if txn == 1 {
+				txn = 2
+			}
+		case (verb == "RSET" || verb == "EHLO" || verb == "HELO") && ok:
+			txn, accepted = 0, 0
+		}
 		if reply == "!drop" {
 			return
 		}
@@ -122,6 +144,7 @@ func (s *vServer) serve(c net.Conn) {
 			s.mu.Lock()
 			s.Committed = append(s.Committed, sb.String())
 			s.mu.Unlock()
+			txn, accepted = 0, 0
 			reply := s.Respond("EOD", "", counts["EOD"])
 			counts["EOD"]++
 			if reply == "!drop" {
